@@ -509,6 +509,139 @@ def judgeW0 (seed variant : Nat) (hex impl : String) : String :=
     else s!"bad wrong-load want={(want.take 300)}"
 
 
+/-! ### object-stream CONTAINERS (and ordinary streams) whose own /Length is a reference (`lenc`)
+
+    `parse_objects` defers a stream object whose /Length names an object that is not loaded yet to a second pass and
+    opens the object streams only after BOTH passes.  The purpose-built document: plain objects 1 (root), 2; an object
+    stream (members 7, 8) and an ordinary stream, each taking its /Length from its own holder; cross-reference stream
+    20.  variant bits:
+      variant % 2        layout: 0 cross-reference stream, 1 hybrid (members hidden behind /XRefStm)
+      (variant / 2) % 2  NUMBER order = cross-reference order: 0 holders 3 / 5 below their streams 4 / 6 (loaded first),
+                         1 streams 3 / 5 below their holders 4 / 6 (FORWARD reference: second pass)
+      (variant / 4) % 2  FILE order: 0 each holder is written before its stream, 1 after it
+      (variant / 8) % 3  family: 0 as described; 1 a second container (members 11, 12) with the OPPOSITE number order
+                         (9 / 10) and a third one (13, member 14) with a direct /Length: containers of all three sorts
+                         in one file; 2 a holder is itself a MEMBER of another object stream (container 15, direct
+                         /Length, members 16 and the holder): (variant / 24) % 2 = 0 the ordinary stream's holder,
+                         = 1 the container's holder -/
+
+def memberOf (r : Rng) (num : Nat) : (Nat × Obj × Obj × Ch × Bytes) × Rng :=
+  let (v, r) := rndNonNull 2 r
+  let v := match v with | .ref a b => Obj.arr [.ref a b] | v => v
+  let (sv, r) := shuffleObj v r
+  let (ch, r) := rndChoices r 100
+  let (gap, r) := rndPad r
+  ((num, v, sv, ch, gap), r)
+
+/-- an object-stream container; `holder = 0`: direct /Length -/
+def lenContainer (r : Rng) (num holder : Nat) (mems : List (Nat × Obj × Obj × Ch × Bytes)) :
+    DObj × List (Nat × Nat × Nat × Obj) × Rng :=
+  let (shell, r) := rndShell r num 0
+  let (fl, r) := r.nat 2
+  let (hp, r) := rndPad r
+  let (c, m) := mkContainer num mems (fl == 1) hp { shell with lenRef := (if holder == 0 then none else some holder) }
+  (c, m, r)
+
+/-- put file-level object `a` before (`aFirst`) or after object `b` by exchanging their places if needed -/
+def orderPair (objs : List DObj) (a b : Nat) (aFirst : Bool) : List DObj :=
+  let ia := objs.findIdx (·.num == a)
+  let ib := objs.findIdx (·.num == b)
+  if ia ≥ objs.length || ib ≥ objs.length then objs
+  else if (ia < ib) == aFirst then objs
+  else objs.zipIdx.map fun (o, i) => if i == ia then objs[ib]?.getD o else if i == ib then objs[ia]?.getD o else o
+
+/-- the holder as a member of an object stream -/
+def holderMember (num len : Nat) : Nat × Obj × Obj × Ch × Bytes := (num, .int len, .int len, [], [32])
+
+structure LenParts where
+  objs : List DObj
+  mems : List (Nat × Nat × Nat × Obj)
+  pairs : List (Nat × Nat)       -- (stream, holder): pairs whose file order is prescribed
+  r : Rng
+
+/-- the part with the streams whose /Length is a reference of a `lenc` / `lenh` document; numbers from `b`+3 .. `b`+16 -/
+def lenParts (r : Rng) (b : Nat) (fwdNum : Bool) (fam sub : Nat) (withMembers : Bool) : LenParts :=
+  let (cN, hN) := if fwdNum then (b + 3, b + 4) else (b + 4, b + 3)
+  let (sN, hsN) := if fwdNum then (b + 5, b + 6) else (b + 6, b + 5)
+  let (m7, r) := memberOf r (b + 7)
+  let (m8, r) := memberOf r (b + 8)
+  let (c, cm, r) := lenContainer r cN hN [m7, m8]
+  let (s, r) := rndStmObj r sN 0 (some hsN)
+  let (h, r) := holderObj r hN (dataLen c)
+  let (hs, r) := holderObj r hsN (dataLen s)
+  if !withMembers then ⟨[s, hs], [], [(sN, hsN)], r⟩
+  else match fam with
+  | 0 => ⟨[c, s, h, hs], cm, [(cN, hN), (sN, hsN)], r⟩
+  | 1 =>
+    let (c2N, h2N) := if fwdNum then (b + 10, b + 9) else (b + 9, b + 10)
+    let (m11, r) := memberOf r (b + 11)
+    let (m12, r) := memberOf r (b + 12)
+    let (c2, cm2, r) := lenContainer r c2N h2N [m11, m12]
+    let (h2, r) := holderObj r h2N (dataLen c2)
+    let (m14, r) := memberOf r (b + 14)
+    let (c3, cm3, r) := lenContainer r (b + 13) 0 [m14]
+    ⟨[c, s, h, hs, c2, h2, c3], cm ++ cm2 ++ cm3, [(cN, hN), (sN, hsN), (c2N, h2N)], r⟩
+  | _ =>
+    let (m16, r) := memberOf r (b + 16)
+    if sub == 0 then
+      let (d, dm, r) := lenContainer r (b + 15) 0 [m16, holderMember hsN (dataLen s)]
+      ⟨[c, s, h, d], cm ++ dm, [(cN, hN)], r⟩
+    else
+      let (d, dm, r) := lenContainer r (b + 15) 0 [holderMember hN (dataLen c), m16]
+      ⟨[c, s, hs, d], cm ++ dm, [(sN, hsN)], r⟩
+
+def lencFam (variant : Nat) : Nat := (variant / 8) % 3
+def lencSub (variant : Nat) : Nat := (variant / 24) % 2
+
+def genLenC (seed variant : Nat) : Scene :=
+  let r := Rng.mk' (seed * 9973 + variant * 37 + 5)
+  let kind := 1 + variant % 2
+  let fwdNum := (variant / 2) % 2 == 1
+  let after := (variant / 4) % 2 == 1
+  let (garbage, r) := rndGarbage r
+  let (bin, r) := r.nat 2
+  let (p1, r) := rndValObj r 1 0
+  let (p2, r) := rndValObj r 2 0
+  let lp := lenParts r 0 fwdNum (lencFam variant) (lencSub variant) true
+  let (objs, r) := shuffleL ([p1, p2] ++ lp.objs) lp.r
+  let objs := lp.pairs.foldl (fun objs p => orderPair objs p.2 p.1 (!after)) objs
+  let (lay, _) := rndLay r kind 20 65535
+  ⟨garbage, bin == 1, [({ objs, members := lp.mems, frees := [], zero := true, root := (1, 0), lay }, .auto)], some [0]⟩
+
+/-- is this file-level object an object-stream container? -/
+def isContainer (o : DObj) : Bool :=
+  match o.body with
+  | .stm es _ => es.any fun e => e.1 == bs "Type" && (match e.2 with | .name n => n == bs "ObjStm" | _ => false)
+  | _ => false
+
+/-- the streams (container?, holder number) of a scene that take their /Length from an object that is - in the newest
+    revision mentioning it - a MEMBER of an object stream -/
+def holdersInObjStm (sc : Scene) : List (Bool × Nat) :=
+  let rs := sc.revs.map (·.1)
+  let newestIsMember (h : Nat) : Bool :=
+    match (rs.reverse.find? fun r => (mentions r).any fun x => x.1 == h) with
+    | some r => r.members.any fun m => m.1 == h
+    | none => false
+  rs.flatMap fun r => r.objs.filterMap fun o =>
+    match o.lenRef with
+    | some h => if newestIsMember h then some (isContainer o, h) else none
+    | none => none
+
+/-- `lenc` / `lenh`: the oracle is `resolve`, with two exceptions decided on the CASE: (a) a CONTAINER whose own
+    /Length lives in an object stream is not a well-formed document (ISO 32000-1 7.5.7: "an object representing the
+    value of the Length entry in an object stream dictionary" shall not be stored in an object stream): rejected or the
+    exact load; (b) an ORDINARY stream whose /Length lives in an object stream is well formed, and refused by
+    parse_objects (object streams are opened after both passes): known class `length-holder-in-objstm`, reported only
+    for a case of that shape that is REJECTED - accepted with a wrong load is `wrong-load` as everywhere. -/
+def judgeLen (sc : Scene) (hex impl : String) : String :=
+  let v := judgeScene sc hex impl
+  if impl.trimAscii.toString == "rejected" && v.startsWith "bad " && sc.chain.isSome then
+    let hs := holdersInObjStm sc
+    if hs.any (·.1) then "ok"
+    else if !hs.isEmpty then "bad length-holder-in-objstm rejected"
+    else v
+  else v
+
 /-! ### documents and histories that declare encryption (`/Encrypt`)
 
     The encoder is `DocSpec.renderHistoryE` (Spec/DocEnc.lean: `renderHistory` with an optional declaration per
@@ -603,6 +736,7 @@ def judge (case impl : String) : String :=
     | ["sys", hex, seed, variant, mode] => judgeScene (genSys seed.toNat! variant.toNat! mode.toNat!) hex impl
     | ["w0", hex, seed, variant] => judgeW0 seed.toNat! variant.toNat! hex impl
     | ["enc", hex, seed, variant] => judgeEnc (genEncDoc seed.toNat! variant.toNat!) hex impl
+    | ["lenc", hex, seed, variant] => judgeLen (genLenC seed.toNat! variant.toNat!) hex impl
     | _ => "skip"
 
 /-! ### corruption of a rendered file -/
@@ -657,6 +791,10 @@ def gen (seed n : Nat) (_tier : String) (emit : String → IO Unit) : IO Unit :=
     if k % 5 == 4 then
       let (eb, _, _, _) := renderE (genEncDoc s (k / 5))
       emit s!"enc {hexOfBytes eb} {s} {k / 5}"
+    -- object-stream containers / ordinary streams with a referenced /Length: 48 combinations per 192 indices
+    if k % 4 == 3 then
+      let (lb, _, _, _) := render (genLenC s (k / 4))
+      emit s!"lenc {hexOfBytes lb} {s} {k / 4}"
 
 /-- non-trivial: a document with at least 3 defined objects / a mismatch case / a corrupted file of ≥ 200 bytes -/
 def nontrivial (line : String) : Bool :=
@@ -667,6 +805,9 @@ def nontrivial (line : String) : Bool :=
   | "sys" :: _ => true
   | "w0" :: _ => true
   | "enc" :: _ => true
+  | "lenc" :: _ => true
+  | "lenh" :: _ => true
+  | "long" :: _ => true
   | "ench" :: _ => true
   | "decl" :: _ => true
   | "exp" :: _ => true
